@@ -253,7 +253,8 @@ def dd_text(info):
         l += ': dyndep'
         if ii: l += ' | ' + ' '.join(ii)
         L.append(l)
-        if rs: L.append('  restat = 1')
+        # any NON-EMPTY value means true (GetBindingBool), as in a manifest: the value varies with the statement's name
+        if rs: L.append('  restat = ' + ['1', '0', 'true', '1', 'no'][sum(out0.encode()) % 5])
     return '\n'.join(L) + '\n'
 
 def add_dyndep(rnd, g, produced=None):
